@@ -9,7 +9,7 @@
 From Coq Require Import List ZArith Permutation.
 From TskVerif Require Import Base.Common C15.Combination C15.Partitions C15.RankTree
   C15.TopoSpec C15.CombProofs C15.CombRankProofs C15.WRProofs C15.RankTreeBounded
-  C15.PartitionProofs C15.OorProofs C15.ChildOrderProofs C15.LabelOorProofs C15.RuleAscProofs C15.NumShapesTotal C15.ShapeRankProofs C15.ShapeDenseProofs.
+  C15.PartitionProofs C15.OorProofs C15.ChildOrderProofs C15.LabelOorProofs C15.RuleAscProofs C15.NumShapesTotal C15.ShapeRankProofs C15.ShapeDenseProofs C15.LabelRankProofs.
 Import ListNotations.
 Open Scope Z_scope.
 
@@ -216,3 +216,44 @@ Theorem shape_unrank_accepts_iff : forall n nS r,
   1 <= n -> num_shapes n = Ok nS -> 0 <= r ->
   ((exists sh, shape_unrank (S (Z.to_nat n)) n r = Ok sh) <-> r < nS).
 Proof. exact ShapeDenseProofs.shape_unrank_accepts_iff. Qed.
+
+(* ---- (d) label half of rank o unrank, UNBOUNDED, level lemmas ----
+   (A) Combination.rank inverts Combination.unrank over ANY strictly increasing label list *)
+Theorem comb_rank_unrank_any_labels : forall els k r c,
+  zsorted els -> 0 <= r < Z.of_nat (binom (length els) k) ->
+  unrank r els k = Some c -> comb_rank c els = Some r.
+Proof. exact comb_rank_unrank_sorted. Qed.
+
+(* (B) one group of x same-shape trees (k leaves, y labellings each): the decode of
+   group_label_ranks (per tree: which k-1 labels join the smallest free label, then the
+   tree's own label rank) is inverted by group_rank, for every rank below
+   num_assignments_in_group * y^x; the label sets handed out are sorted and partition the
+   group's labels, every tree rank is < y. *)
+Theorem label_group_level_inverse : forall g r labels tls trs i len_g k y,
+  uniform k y g -> 1 <= k -> 1 <= y -> zsorted labels ->
+  Z.of_nat (length labels) = zlength g * k ->
+  len_g - i = zlength g ->
+  group_label_ranks r g labels = Ok (tls, trs) ->
+  0 <= r < naig_loop g (zlength g * k) * y ^ zlength g ->
+  group_rank_loop (relabel g tls trs) i len_g k (len_g * k) y labels = Ok r /\
+  Forall zsorted tls /\ Permutation (concat tls) labels /\
+  length tls = length g /\ length trs = length g /\
+  Forall (fun tl => Z.of_nat (length tl) = k) tls /\ Forall (fun tr => 0 <= tr < y) trs.
+Proof. exact group_level. Qed.
+
+(* (C) one node: the decode of children_label_ranks (per shape group: label combination,
+   then the group rank) is inverted by compute_label_rank's loop, for every label rank below
+   num_list_of_group_labellings (= num_labellings of the node); the label sets handed to the
+   children are sorted and partition the node's labels.
+   Still open (_partial): closing the induction over the whole tree (label_unrank keeps the
+   shape view of every child, so that (C) applies at every node), density of label ranks, and
+   unrank (rank t) = t / all_trees for every n; the bounded versions (n <= 6) are above. *)
+Theorem label_children_level_inverse : forall gs rank labels cls clrs N,
+  Forall good_group gs -> zsorted labels ->
+  Z.of_nat (length labels) = zsum (map c_nl (concat gs)) ->
+  children_label_ranks gs rank labels = Ok (cls, clrs) ->
+  num_list_of_group_labellings gs = Ok N -> 0 <= rank < N ->
+  clr_loop (relabel_groups gs cls clrs) labels = Ok rank /\
+  length cls = length (concat gs) /\ length clrs = length (concat gs) /\
+  Forall zsorted cls /\ Permutation (concat cls) labels.
+Proof. exact children_level. Qed.
